@@ -29,6 +29,9 @@ META = {
 
 QUICK = [
     ("TA", dict(T=1, sym_k=True)),
+    ("TA", dict(T=1, sym_k=True, lower=True)),
+    ("TK", dict(T=2), None, None, (2, 1, 0)),  # next_p declared before next_h, states declared (h, p)
+    ("TK", dict(T=2), (1, 0), None, None),
     ("TA", dict(T=2, sym_k=True)),
     ("TA", dict(T=3)),
     ("TA", dict(T=2, nw=3, nc=2, sym_g=True)),
@@ -45,6 +48,8 @@ QUICK = [
     ("TJ", dict(T=2)),
     ("TK", dict(T=2)),
     ("TL", dict(T=2)),
+    ("TP", dict(T=2)),  # the admitted restricted-state set changes between periods
+    ("TP", dict(T=3)),
 ]
 THOROUGH = QUICK + [
     ("TA", dict(T=4)),
@@ -64,8 +69,11 @@ THOROUGH = QUICK + [
 
 
 def spec_name(spec):
-    n, kw = spec
-    return n + "[" + ",".join(f"{k}={v}" for k, v in kw.items()) + "]"
+    n, kw = spec[0], spec[1]
+    base = n + "[" + ",".join(f"{k}={v}" for k, v in kw.items()) + "]"
+    if len(spec) > 2:
+        base += f"|s={spec[2]}|c={spec[3]}|f={spec[4]}"
+    return base
 
 
 def units(tier):
